@@ -235,12 +235,48 @@ def proof_rooted(g, anchor, aliases):
     return (anchor.body.id, idx) in aliases
 
 
+def _filled_per_proof(g, root, pviews):
+    """the local container `root` is only ever grown inside loops that iterate over (a view of) the proof list."""
+    from .rng import cyclic_blocks
+    from .refusal import _scc_of
+    bid, loc = root
+    b = g.facts.bodies.get(bid)
+    if b is None or loc < 0:
+        return False
+    refs = {loc}
+    for blk in b.blocks:
+        for st in blk["stmts"]:
+            rv = st["rv"]
+            if rv.get("k") == "ref" and rv.get("mut") and rv["pl"]["l"] == loc and not st["dst"]["p"]:
+                refs.add(st["dst"]["l"])
+    cyc = cyclic_blocks(b)
+    grows = [i for i, t in b.calls() if (t.get("callee") or "").rsplit("::", 1)[-1] in ("push", "extend", "insert", "push_back")
+             and t["args"] and t["args"][0]["k"] in ("copy", "move") and t["args"][0]["pl"]["l"] in refs]
+    if not grows:
+        return False
+    for i in grows:
+        if i not in cyc:
+            continue          # a fixed number of initial elements
+        scc = _scc_of(b, i)
+        driven = False
+        for x in scc:
+            t = b.blocks[x]["term"]
+            if t["k"] == "call" and (t.get("callee") or "").rsplit("::", 1)[-1] == "next" and t["args"] and \
+                    t["args"][0]["k"] in ("copy", "move") and (bid, t["args"][0]["pl"]["l"]) in pviews:
+                driven = True
+        if not driven:
+            return False
+    return any(i in cyc for i in grows)
+
+
 def run_zip(rep, ctx, anchor, rule="R4a"):
     g = ctx.graph(anchor)
     f = ctx.facts
     conds = None
     memo = {}
     n = 0
+    from_proof = None
+    pviews = set()
     per_body = defaultdict(int)
     for bid in sorted(g.scope):
         b = f.bodies[bid]
@@ -257,6 +293,18 @@ def run_zip(rep, ctx, anchor, rule="R4a"):
                 continue
             pr = [proof_rooted(g, anchor, s) for s in sides]
             if pr[0] == pr[1]:
+                continue
+            # the other side must stand for the claims: a container that was itself built from the proof list (one
+            # randomizer pushed per proof, say) cannot be shorter than the claims in any way the proof list is not
+            if from_proof is None:
+                idx_p = anchor.roles.get("proof")
+                from ..flow import ALIAS
+                from_proof = {st[0] for st in g.reach([(anchor.body.id, idx_p)], typed=False, kinds=(DATA, ALIAS))} \
+                    if idx_p is not None else set()
+                pviews = views(g, {(anchor.body.id, idx_p)}) if idx_p is not None else set()
+            other = sides[1] if pr[0] else sides[0]
+            locals_only = [r for r in other if isinstance(r, tuple) and len(r) == 2 and isinstance(r[1], int)]
+            if locals_only and all(r in from_proof or _filled_per_proof(g, r, pviews) for r in locals_only):
                 continue
             n += 1
             k = per_body[bid]
